@@ -896,15 +896,17 @@ impl<T> Sender<T> {
             Ok(())
         } else {
             // send directly to the waitlist
-            let mut d = data.take().unwrap();
-            let sig = Signal::new_sync(KanalPtr::new_from(&mut d));
+            // MaybeUninit acts like a ManuallyDrop: after a successful hand-off the value
+            // belongs to the receiver and must not be dropped here again
+            let mut d = MaybeUninit::new(data.take().unwrap());
+            let sig = Signal::new_sync(KanalPtr::new_from(d.as_mut_ptr()));
             internal.push_send(sig.get_terminator());
             drop(internal);
             if !sig.wait_timeout(deadline) {
                 #[cfg(feature = "verif")]
                 crate::verif::at(crate::verif::SITE_TIMED_EXPIRED);
                 if sig.is_terminated() {
-                    *data = Some(d);
+                    *data = Some(unsafe { d.assume_init() });
                     return Err(SendErrorTimeout::Closed);
                 }
                 #[cfg(feature = "verif")]
@@ -912,13 +914,13 @@ impl<T> Sender<T> {
                 {
                     let mut internal = acquire_internal(&self.internal);
                     if internal.cancel_send_signal(&sig) {
-                        *data = Some(d);
+                        *data = Some(unsafe { d.assume_init() });
                         return Err(SendErrorTimeout::Timeout);
                     }
                 }
                 // removing receive failed to wait for the signal response
                 if !sig.wait() {
-                    *data = Some(d);
+                    *data = Some(unsafe { d.assume_init() });
                     return Err(SendErrorTimeout::Closed);
                 }
             }
